@@ -31,6 +31,10 @@ type c06concPlan struct {
 	// Read lists the versions whose finalized state root each reader reads
 	// (they must stay retained); one reader thread per entry.
 	Read [][]uint64
+	// ReadCandidate: one more reader reads the first candidate the writer commits to the next
+	// version (batch name), which the finalize then discards: absent, an error, or exactly its
+	// own contents - never other contents.
+	ReadCandidate string
 }
 
 func c06concPlans(thorough bool) []c06concPlan {
@@ -42,6 +46,7 @@ func c06concPlans(thorough bool) []c06concPlan {
 		{Name: "prune(v1) | read v2", Prefix: three, Writers: [][]L{{p(1)}}, Read: [][]uint64{{2}}},
 		{Name: "prune(v1) prune(v2) | read v3", Prefix: three, Writers: [][]L{{p(1), p(2)}}, Read: [][]uint64{{3}}},
 		{Name: "commit(v3,del) commit(v3,mod) finalize(v3,#1) | read v2", Prefix: three[:4], Writers: [][]L{{c(3, "del"), c(3, "mod"), f(3, 1)}}, Read: [][]uint64{{2}}},
+		{Name: "commit(v3,del) commit(v3,mod) finalize(v3,#1) | read discarded candidate", Prefix: three[:4], Writers: [][]L{{c(3, "del"), c(3, "mod"), f(3, 1)}}, ReadCandidate: "del"},
 		{Name: "commit(v3,readd) finalize(v3) | read v2", Prefix: three[:4], Writers: [][]L{{c(3, "readd"), f(3, 0)}}, Read: [][]uint64{{2}}},
 		{Name: "del/readd history: prune(v1) | read v3", Prefix: []L{c(1, "add2"), f(1, 0), c(2, "del"), f(2, 0), c(3, "add"), f(3, 0)}, Writers: [][]L{{p(1)}}, Read: [][]uint64{{3}}},
 		{Name: "commit(v4,add) finalize(v4) | prune(v1) | read v2", Prefix: three, Writers: [][]L{{c(4, "add"), f(4, 0)}, {p(1)}}, Read: [][]uint64{{2}}},
@@ -325,6 +330,37 @@ func c06concInstance(backend string, pl c06concPlan) (*conc.Instance, error) {
 					return
 				}
 				outcome.Add("read(v%d)", t.root.Version)
+			}
+		})
+	}
+	if pl.ReadCandidate != "" {
+		v := e.ref.last + 1
+		_, base := e.ref.stateParent(v)
+		cc := base.Clone()
+		for _, o := range batchOps(pl.ReadCandidate, base) {
+			if o[1] == nil {
+				delete(cc, string(o[0]))
+			} else {
+				cc[string(o[0])] = o[1]
+			}
+		}
+		croot := kv.RootFor(v, node.RootTypeState, kv.CanonicalRoot(cc))
+		inst.Bodies = append(inst.Bodies, func() {
+			for i := 0; i < 2; i++ {
+				if !e.ndb.HasRoot(croot) {
+					outcome.Add("candidate absent")
+					continue
+				}
+				got, err := readTree(e.ndb, croot)
+				switch {
+				case err != nil:
+					outcome.Add("candidate unreadable")
+				case !got.Equal(cc):
+					problems.Add("candidate root %s of version %d, which the database reports present, reads back %s while it is being discarded; its own contents are %s", croot.Hash, v, got, cc)
+					return
+				default:
+					outcome.Add("candidate read")
+				}
 			}
 		})
 	}
